@@ -99,6 +99,9 @@ pub enum Ev {
     /// the sender sends a link flow with its current delivery-count (echo=true).  If the receiver asked
     /// to drain, the sender first advances its delivery-count over the unused credit, as the spec says.
     SFlow,
+    /// the same sender flow without echo: the receiver learns the sender's delivery-count (advanced over the
+    /// unused credit if it had asked to drain) and sends nothing back
+    SFlowQuiet,
     /// application: recv() once (a complete delivery is waiting)
     Recv,
     /// application: recv() until nothing is waiting (at least two are waiting)
@@ -119,7 +122,7 @@ pub enum Ev {
     Drain,
 }
 
-pub const FULL: [Ev; 16] = [
+pub const FULL: [Ev; 17] = [
     Ev::TxOne,
     Ev::Recv,
     Ev::AccOld,
@@ -136,6 +139,7 @@ pub const FULL: [Ev; 16] = [
     Ev::SetCreditLo,
     Ev::SetCreditHi,
     Ev::Drain,
+    Ev::SFlowQuiet,
 ];
 /// the core of the alphabet (used for the deepest level)
 pub const CORE: [Ev; 8] = [Ev::TxOne, Ev::Recv, Ev::AccOld, Ev::TxLimit, Ev::TxOver, Ev::SFlow, Ev::RecvAll, Ev::AccAll];
@@ -143,7 +147,7 @@ pub const CORE: [Ev; 8] = [Ev::TxOne, Ev::Recv, Ev::AccOld, Ev::TxLimit, Ev::TxO
 pub const CORE_BAD: [Ev; 9] = [Ev::TxOne, Ev::Recv, Ev::AccOld, Ev::TxLimit, Ev::TxOver, Ev::SFlow, Ev::RecvAll, Ev::AccAll, Ev::TxBad];
 
 /// the core for Manual links (credit exists only after a set_credit)
-pub const CORE_MANUAL: [Ev; 9] = [Ev::SetCreditHi, Ev::TxOne, Ev::Recv, Ev::TxLimit, Ev::TxOver, Ev::SFlow, Ev::RecvAll, Ev::SetCreditLo, Ev::Drain];
+pub const CORE_MANUAL: [Ev; 10] = [Ev::SetCreditHi, Ev::TxOne, Ev::Recv, Ev::TxLimit, Ev::TxOver, Ev::SFlow, Ev::RecvAll, Ev::SetCreditLo, Ev::Drain, Ev::SFlowQuiet];
 
 const LO: u32 = 1;
 const HI: u32 = 3;
@@ -1026,7 +1030,7 @@ impl Harness {
             Ev::TxOne | Ev::TxMulti | Ev::TxSettled | Ev::TxBad => credit >= 1,
             Ev::TxLimit => credit >= 2,
             Ev::TxOver => credit == 0,
-            Ev::SFlow => true,
+            Ev::SFlow | Ev::SFlowQuiet => true,
             Ev::Recv => queued >= 1,
             Ev::RecvAll => queued >= 2,
             Ev::AccOld | Ev::AccDisp => und >= 1,
@@ -1071,6 +1075,10 @@ impl Harness {
             Ev::SFlow => {
                 self.send_sender_flow(true);
                 self.quiesce(Cause::Report).await;
+            }
+            Ev::SFlowQuiet => {
+                self.send_sender_flow(false);
+                self.quiesce(Cause::Spontaneous).await;
             }
             Ev::Recv => {
                 self.recv_once().await;
